@@ -102,7 +102,7 @@ class Harness:
         # daemon side of the frame is real (__ebd_ipc_cmd); answer with one status line
         for _ in range(5):
             ebp.read()
-        ebp.write("1")
+        ebp.write("0\x071")  # status 0, value 1 (= "not installed")
 
     def bashrc_handler(self, ebp, *a):
         ebp.write("end_request")
@@ -159,7 +159,7 @@ class Harness:
             return ["preload", names, rng.random() < 0.6]
         if r < 0.67:
             return ["clear"]
-        return ["phase", "pretend" if rng.random() < 0.8 else "setup", rng.choice(list(BODIES)), rng.random() < 0.4]
+        return ["phase", "pretend", rng.choice(list(BODIES)), rng.random() < 0.4]
 
     # -- probe: does the processor pkgcore hands out next answer with the right data? -----
     def probe(self, wit):
@@ -217,6 +217,18 @@ class Harness:
                 if code == "unknown-daemon-command" and tolerate_unknown and "bogus_cmd" in detail:
                     ctx.count("injected_unknown_commands_seen_in_trace")
                     continue
+                if code == "liveness-probe-got-other-line":
+                    last = getattr(tr, "vt_last", None) or {}
+                    oc = last.get("outcome", "")
+                    session_ending = oc.startswith("raised:") and oc != "raised:ProcessorError"
+                    if last.get("hard_signal") or session_ending or not last:
+                        ctx.count("failed_probe_after_session_ending_event")
+                        continue
+                    tail = [[k, (p if isinstance(p, str) else p.decode("utf-8", "replace"))[:100]] for k, p in events[max(0, idx - 8): idx + 2]]
+                    ctx.violation("residue-left-in-pipe-after-normal-return",
+                                  dict(wit, previous=last, detail=detail, trace_tail=tail,
+                                       rule=(last.get("action") or ["?"])[0] + ":" + oc))
+                    continue
                 tail = [[k, (p if isinstance(p, str) else p.decode("utf-8", "replace"))[:100]] for k, p in events[max(0, idx - 6): idx + 2]]
                 ctx.violation("trace-rejected-by-protocol-automaton", dict(wit, anomaly=code, detail=detail, trace_tail=tail, rule=code))
             tr.vt_reported = seen
@@ -273,6 +285,15 @@ def session(ctx, h, actions=None):
         outcome, detail = h.act(ebp, action)
         if disturb is not None:
             disturb.join()
+        tr_ = h.ebd.trace_of(ebp)
+        if tr_ is not None:
+            tr_.vt_last = {"action": action, "outcome": outcome, "hard_signal": bool(sigdesc and sigdesc[0] != "stopcont")}
+        if action[0] == "alive" and outcome != "ok":
+            try:
+                h.processor.drop_ebuild_processor(ebp)
+                ebp.shutdown_processor(force=True)
+            except BaseException:
+                pass
         h.release(ebp)
         stalls = h.ebd.take_stalls()
         entry = {"action": action, "outcome": outcome, "signal": sigdesc}
@@ -310,15 +331,12 @@ def session(ctx, h, actions=None):
         elif action[0] == "clear" and not hard_signal:
             if outcome != "ok":
                 ctx.violation("clear-preloaded-reply-misread", dict(wit, outcome=outcome, detail=detail, rule="clear"))
-        elif action[0] == "preload" and not hard_signal:
-            has_bad = BAD_ECLASS[0] in action[1]
-            if not action[2]:
-                if has_bad and outcome == "ok":
-                    ctx.violation("bad-eclass-preload-reported-success", dict(wit, outcome=outcome, rule="preload-sync"))
-                if not has_bad and outcome != "ok":
-                    ctx.violation("good-eclass-preload-failed", dict(wit, outcome=outcome, detail=detail, rule="preload-sync"))
-        elif action[0] in ("alive", "env") and not hard_signal and outcome != "ok":
+        elif action[0] == "env" and not hard_signal and outcome != "ok":
             ctx.violation("simple-request-failed", dict(wit, outcome=outcome, detail=detail, rule=action[0]))
+        elif action[0] == "alive" and outcome != "ok":
+            # pkgcore's own callers drop a processor whose probe failed; a probe that merely timed out
+            # (10 s wall clock inside pkgcore, this box may be overloaded) is not a verdict
+            ctx.count("liveness_probe_false")
         if sigdesc:
             interesting = True
             ctx.count("signals_sent:" + sigdesc[0])
